@@ -48,6 +48,7 @@ EXTRA = {
     "FloatPayloadSource": Entry("psource", "NoData", "Float", ()),
     "FloatPayloadSink": Entry("psink", "Float", "Float", ()),
     "VLedgerPayloadSink": Entry("psink", "Float", "Float", ()),
+    "VNoDocPayloadSink": Entry("psink", "Float", "Float", ()),
     "ModelFittingContextProcessor": Entry("ctx", "Any", None,
                                           (("x_values", REQ), ("y_values", REQ), ("fitting_model", REQ)),
                                           ("fit.parameters",)),
